@@ -90,9 +90,12 @@ fn base_pool() -> Vec<PoolTy> {
 const FIELD_IDENTS: &[&str] = &[
     "a", "b", "id", "kind", "name", "value", "count", "first_name", "last_name", "is_active", "my_long_field_name",
     "x_y", "tag", "type_name", "data", "items", "flag", "opt", "inner", "extra_info", "radius", "top_left", "q", "limit",
+    // identifier shapes outside the "one reading" domain (digits, capital runs, no underscore): the reference
+    // for these is the third-party convert_case 0.6 `Case::Camel` that deserr documents it delegates to
+    "sha256sum", "userID", "md5SumHex", "x2", "a1_b2", "fooBar", "HTTPCode",
 ];
 const VARIANT_IDENTS: &[&str] =
-    &["Alpha", "Beta", "GammaDelta", "Unit", "Circle", "BigRedThing", "A", "Ab", "Rect", "Empty", "SomeOther", "Label"];
+    &["Alpha", "Beta", "GammaDelta", "Unit", "Circle", "BigRedThing", "A", "Ab", "Rect", "Empty", "SomeOther", "Label", "HTTPGet", "IOError", "Vec2D", "V2"];
 const RENAMES: &[&str] =
     &["renamed", "Re Named", "a.b", "日本", "x-y", "UPPER", "camelCase", "snake_case", "Kind", "NAME", "value", "k[0]", "ß"];
 const TAGS: &[&str] = &["type", "kind", "tag", "t", "my tag", "kind.of", "name", "value"];
@@ -127,12 +130,46 @@ fn camel(ident: &str) -> String {
     out
 }
 
+/// identifiers for which "camelCase" has exactly one reading: lowercase snake_case words, or PascalCase
+/// words without digits and without runs of capitals
+fn simple_ident(ident: &str) -> bool {
+    if ident.chars().any(|c| c.is_ascii_digit()) {
+        return false;
+    }
+    if ident.contains('_') {
+        return ident.chars().all(|c| c.is_ascii_lowercase() || c == '_');
+    }
+    let cs: Vec<char> = ident.chars().collect();
+    if cs.iter().all(|c| c.is_ascii_lowercase()) {
+        return true;
+    }
+    // PascalCase: starts upper, never two capitals in a row, does not end with a capital (unless single letter)
+    cs[0].is_ascii_uppercase() && !cs.windows(2).any(|w| w[0].is_ascii_uppercase() && w[1].is_ascii_uppercase()) && (cs.len() == 1 || !cs[cs.len() - 1].is_ascii_uppercase())
+}
+
+/// camelCase of an identifier: the harness' own rule inside the simple domain (cross-checked against
+/// convert_case there), convert_case 0.6 outside it
+fn camel_ref(ident: &str) -> String {
+    use convert_case::{Case, Casing};
+    let lib = ident.to_case(Case::Camel);
+    if simple_ident(ident) {
+        let own = camel(ident);
+        if own != lib {
+            eprintln!("dv_gen: camelCase reference disagreement on {ident:?}: own {own:?} vs convert_case {lib:?}");
+            std::process::exit(3);
+        }
+        own
+    } else {
+        lib
+    }
+}
+
 /// the documented rule: rename, else the applicable rename_all, else the identifier
 fn effective(ident: &str, rename: &Option<String>, ra: Option<RA>) -> String {
     match rename {
         Some(r) => r.clone(),
         None => match ra {
-            Some(RA::Camel) => camel(ident),
+            Some(RA::Camel) => camel_ref(ident),
             Some(RA::Lower) => ident.to_lowercase(),
             None => ident.to_string(),
         },
